@@ -1,4 +1,5 @@
 """Per-run context: lazily extracted fact bases per feature configuration, engines, roles."""
+import os
 from extract import get_facts
 from facts import Facts
 from engine import Engine
@@ -25,6 +26,8 @@ class Ctx:
         return self._facts[config]
 
     def engine(self, config='std', **kw):
+        if self.tier == 'thorough' and 'max_visits' not in kw and 'FI_MAX_VISITS' not in os.environ:
+            kw['max_visits'] = 4      # thorough: loops unrolled three times (quick: twice)
         key = (config, tuple(sorted((k, repr(v)) for k, v in kw.items())))
         if key not in self._engines:
             self._engines[key] = Engine(self.facts(config), **kw)
